@@ -325,6 +325,52 @@ def handle (j : Json) : P Json := do
     let out := Efp.JsonModel.decode objs
     pure (Json.mkObj [("objs", Json.arr (out.map (fun o =>
       Json.mkObj [("cls", o.cls), ("id", o.id), ("attrs", Json.arr (o.attrs.map (fun p => Json.arr #[Json.str p.1, mvalJson p.2])).toArray)])).toArray)])
+  | "derive" =>
+    let kind ← fs j "kind"
+    let fq (k : String) : P Qty := do
+      match (← jVal (← fld j k)) with
+      | .q x => pure x
+      | _ => throw s!"{k}: quantity expected"
+    let qj (x : Qty) : Json := valJson (.q x)
+    match kind with
+    | "video" => do
+      let i : Efp.Builders.VideoIn := ⟨(← jInt (← fld j "pixels")).toNat, ← fq "bits_per_pixel", ← fq "refresh_rate",
+        ← fq "video_duration", ← fq "static_delivery_cpu_cost", ← fq "ram_buffer_per_user"⟩
+      match Efp.Builders.videoDerive i, Efp.Builders.videoBitrate i with
+      | .ok p, .ok br => pure (Json.mkObj [("dynamic_bitrate", qj br), ("data_transferred", qj p.dataTransferred),
+          ("request_duration", qj p.requestDuration), ("compute_needed", qj p.computeNeeded), ("ram_needed", qj p.ramNeeded)])
+      | .error e, _ => pure (errJson e)
+      | _, .error e => pure (errJson e)
+    | "genai" => do
+      let i : Efp.Builders.GenAIIn := ⟨← fq "active_params", ← fq "total_params", ← fq "nb_of_bits_per_parameter", ← fq "llm_memory_factor",
+        ← fq "gpu_latency_alpha", ← fq "gpu_latency_beta", ← fq "bits_per_token", ← fq "output_token_count", ← fq "ram_per_gpu"⟩
+      match Efp.Builders.genaiDerive i with
+      | .ok o => pure (Json.mkObj [("output_token_weights", qj o.tokenWeights), ("data_transferred", qj o.dataTransferred),
+          ("data_stored", qj o.dataStored), ("request_duration", qj o.requestDuration), ("compute_needed", qj o.computeNeeded),
+          ("base_ram_consumption", qj o.serviceBaseRam)])
+      | .error e => pure (errJson e)
+    | _ => throw s!"unknown builder {kind}"
+  | "listop" =>
+    let content := (← (← jArr (← fld j "content")).toList.mapM jInt).map Int.toNat
+    let attached := match fldOpt j "attached" with | some (.bool b) => b | _ => true
+    let m ← fs j "method"
+    let argI (k : String) : P Int := do jInt (← fld j k)
+    let argL (k : String) : P (List Nat) := do pure ((← (← jArr (← fld j k)).toList.mapM jInt).map Int.toNat)
+    let op : Efp.ListOps.Op ← match m with
+      | "append" => do pure (.append (← argI "x").toNat)
+      | "insert" => do pure (.insert (← argI "i") (← argI "x").toNat)
+      | "extend" => do pure (.extend (← argL "xs"))
+      | "pop" => do pure (.pop (← argI "i"))
+      | "delitem" => do pure (.delitem (← argI "i"))
+      | "setitem" => do pure (.setitem (← argI "i") (← argI "x").toNat)
+      | "remove" => do pure (.remove (← argI "x").toNat)
+      | "clear" => pure .clear
+      | "assign" => do pure (.assign (← argL "xs"))
+      | _ => throw s!"unknown list method {m}"
+    let (st, err) := Efp.ListOps.step ⟨content, attached⟩ op
+    pure (Json.mkObj [("content", Json.arr (st.content.map (fun (x : Nat) => Json.num (Int.ofNat x))).toArray),
+                      ("attached", Json.bool st.attached),
+                      ("err", match err with | none => Json.null | some .indexError => "IndexError" | some .valueError => "ValueError" | some .attributeError => "AttributeError")])
   | "toggle" =>
     let content ← (← fl j "content").mapM (fun p => do
       let a ← jArr p
